@@ -308,6 +308,7 @@ package wal
 //@   ensures[C04.head-applied] result == nil && old(LastOf(av(w.s))) >= newMin ==> FirstOf(av(w.s)) == newMin && LastOf(av(w.s)) == old(LastOf(av(w.s)))
 //@   ensures[C04.head-all-removed] result == nil && old(LastOf(av(w.s))) < newMin ==> FirstOf(av(w.s)) == 0 && LastOf(av(w.s)) == 0
 //@   ensures[C04.head-one-commit] result == nil ==> g_commits == old(g_commits) + 1
+//@   ensures[C20.failed-head-truncation-not-counted] result != nil ==> counter("head_truncations") == old(counter("head_truncations"))
 //@   ensures[C20.head-count] result == nil ==> counter("head_truncations") == old(counter("head_truncations"))
 //@        + ite(old(FirstOf(av(w.s))) == 0, 0, ite(newMin > old(LastOf(av(w.s))), old(LastOf(av(w.s))) - old(FirstOf(av(w.s))) + 1, newMin - old(FirstOf(av(w.s)))))
 //@   ensures[C10.published-only-on-success] result != nil ==> av(w.s) == old(av(w.s))
@@ -323,6 +324,7 @@ package wal
 //@   ensures[C03.published-state-wf] av(w.s) != nil && WFS(av(w.s))
 //@   ensures[C04.tail-applied] result == nil ==> FirstOf(av(w.s)) == old(FirstOf(av(w.s))) && LastOf(av(w.s)) == newMax
 //@   ensures[C04.tail-one-commit] result == nil ==> g_commits == old(g_commits) + 1
+//@   ensures[C20.failed-tail-truncation-not-counted] result != nil ==> counter("tail_truncations") == old(counter("tail_truncations"))
 //@   ensures[C20.tail-count] result == nil ==> counter("tail_truncations") == old(counter("tail_truncations")) + (old(LastOf(av(w.s))) - newMax)
 //@   ensures[C10.published-only-on-success] result != nil ==> av(w.s) == old(av(w.s))
 //@   ensures result != nil ==> g_commits == old(g_commits) || g_commits == old(g_commits) + 1
@@ -571,7 +573,8 @@ package wal
 //@   ensures[C05.rotate-keeps-view] result == nil ==> FirstOf(av(w.s)) == old(FirstOf(av(w.s))) && LastOf(av(w.s)) == old(LastOf(av(w.s)))
 //@   ensures[C03.rotate-new-tail-appendable] result == nil ==> !av(w.s).tail.sealed && av(w.s).tail.last == 0 && av(w.s).tail.base == old(LastOf(av(w.s))) + 1
 //@   ensures[C04.rotate-one-commit] result == nil ==> g_commits == old(g_commits) + 1
-//@   ensures[C20.rotations] counter("segment_rotations") == old(counter("segment_rotations")) + 1
+//@   ensures[C20.rotations] result == nil ==> counter("segment_rotations") == old(counter("segment_rotations")) + 1
+//@   ensures[C20.failed-rotation-not-counted] result != nil ==> counter("segment_rotations") == old(counter("segment_rotations"))
 //@   ensures[C10.published-only-on-success] result != nil ==> av(w.s) == old(av(w.s))
 
 //@ -- first append to an empty log at an index other than the tail's BaseIndex:
